@@ -18,6 +18,9 @@ ASSUMPTIONS = ['feeds on interior pulses and 2-wire junction pulses only (a sour
 ZEN_F, ZEN_G, AZI = (20., 50., 3), (10., 35., 3), (15., 100., 3)
 
 
+RULE = RULE + ' Tag patterns: a three-element array with 6 explicit/automatic tag patterns in all 6 listings, feed and load addressed by tag.'
+
+
 def bounds(tier, seed):
     return dict(max_wires=3 if tier == 'quick' else 4, variant=geom.variant(seed),
                 descriptions='all n!*2^n + splits*8 + tag permutations', radius_variants=1 if tier == 'quick' else 2)
